@@ -960,9 +960,47 @@ pub fn gen_project(rng: &mut Rng) -> Project {
         }
     }
     // per-file case policy for symbols declared only in other files
-    let policy: Vec<u8> = (0..nfiles)
+    let mut policy: Vec<u8> = (0..nfiles)
         .map(|_| if nfiles > 1 { match g.rng.below(10) { 0..=1 => 1, 2 => 2, _ => 0 } } else { 0 })
         .collect();
+    // ---- template twins: two extra files that are byte-for-byte identical up to the PROGRAM name (same
+    // length), so that references to shared symbols sit at the same byte ranges in two files
+    let mut nfiles = nfiles;
+    if g.rng.chance(1, 3) {
+        let (fa, fb) = (nfiles, nfiles + 1);
+        let (na, nb) = loop {
+            let base = g.pool_name();
+            let (a, b) = (format!("{base}_a"), format!("{base}_b"));
+            if !g.used_root.contains(&norm(&a)) && !g.used_root.contains(&norm(&b)) {
+                g.used_root.insert(norm(&a));
+                g.used_root.insert(norm(&b));
+                break (a, b);
+            }
+        };
+        let mut taken = BTreeSet::new();
+        taken.insert(norm(&na));
+        taken.insert(norm(&nb));
+        let tys: Vec<usize> = items
+            .iter()
+            .enumerate()
+            .filter(|(_, it)| matches!(it.kind, ItemK::Struct { .. } | ItemK::Alias | ItemK::Fb { .. }))
+            .map(|(i, _)| i)
+            .collect();
+        let prefer: Vec<String> = Vec::new();
+        let nl = 2 + g.rng.below(3) as usize;
+        let snapshot = items.clone();
+        let locals = vars(&mut g, nl, &mut taken, &prefer, &snapshot, &tys);
+        let mut env = Vec::new();
+        push_vars(&mut env, &locals, true, &snapshot);
+        env.extend(global_env(&snapshot, fa, snapshot.len()));
+        let nb_stmts = 3 + g.rng.below(4) as usize;
+        let body = gen_body(&mut g, &env, &snapshot, nb_stmts, 2);
+        items.push(Item { file: fa, name: na, kind: ItemK::Prog { locals: locals.clone(), body: body.clone() } });
+        items.push(Item { file: fb, name: nb, kind: ItemK::Prog { locals, body } });
+        nfiles += 2;
+        policy.push(0);
+        policy.push(0);
+    }
     let variants = variants || policy.iter().any(|p| *p != 0);
     Project { nfiles, items, variants, policy }
 }
@@ -1795,6 +1833,338 @@ pub fn run_project(n: u64, rng: &mut Rng, p: &Project, ops_per_case: usize, out:
     Ok(())
 }
 
+
+// ------------------------------------------------------------------------------------------------
+// namespace projects (outside the modelled fragment: judged by the oracle on the implementation only)
+// ------------------------------------------------------------------------------------------------
+
+/// text writer that records a role for every identifier it emits
+struct NsW {
+    texts: Vec<String>,
+    file: usize,
+    /// (file, start, name, role)
+    toks: Vec<(usize, usize, String, &'static str)>,
+}
+impl NsW {
+    fn raw(&mut self, s: &str) {
+        self.texts[self.file].push_str(s);
+    }
+    fn id(&mut self, name: &str, role: &'static str) {
+        let start = self.texts[self.file].len();
+        self.texts[self.file].push_str(name);
+        self.toks.push((self.file, start, name.to_string(), role));
+    }
+    /// a (possibly qualified) use of a namespaced symbol: `A.B.Name` or `Name`
+    fn quse(&mut self, path: &[String], qualified: bool, name: &str, role_q: &'static str, role_u: &'static str) {
+        if qualified {
+            for seg in path {
+                self.id(seg, "ns_qual");
+                self.raw(".");
+            }
+            self.id(name, role_q);
+        } else {
+            self.id(name, role_u);
+        }
+    }
+}
+
+/// Generates one namespace project.  Returns texts, identifier roles, the namespace form and the access style.
+fn gen_ns_project(rng: &mut Rng) -> (Vec<String>, Vec<(usize, usize, String, &'static str)>, &'static str, &'static str) {
+    let mut used = BTreeSet::new();
+    let mut name = |rng: &mut Rng| loop {
+        let base = *rng.pick(POOL);
+        let n = if rng.chance(1, 3) { format!("{}{}", base, rng.below(4)) } else { base.to_string() };
+        if used.insert(norm(&n)) {
+            return n;
+        }
+    };
+    let form = *rng.pick(&["flat", "dotted", "nested2", "nested3", "dotted_nested"]);
+    let depth = match form { "flat" => 1, "dotted" | "nested2" => 2, _ => 3 };
+    let path: Vec<String> = (0..depth).map(|_| name(rng)).collect();
+    let style = *rng.pick(&["qualified", "using_file", "using_pou"]);
+    let two_files = rng.bool();
+    let (sample, pack, scale, ctl, mid, alias) = (name(rng), name(rng), name(rng), name(rng), name(rng), name(rng));
+    let (fv, fm, ffirst, fsecond) = (name(rng), name(rng), name(rng), name(rng));
+    let (pa, lt, fs, fo) = (name(rng), name(rng), name(rng), name(rng));
+    let (prog, vp, vs, vc, vn, va) = (name(rng), name(rng), name(rng), name(rng), name(rng), name(rng));
+    let with_mid = depth >= 2 && rng.bool();
+    let with_alias = rng.bool();
+    let list_fields = rng.bool();
+    let mut w = NsW { texts: vec![String::new(); if two_files { 2 } else { 1 }], file: 0, toks: Vec::new() };
+    // ---- namespace headers
+    let mut open_blocks = 0;
+    match form {
+        "flat" => {
+            w.raw("NAMESPACE ");
+            w.id(&path[0], "ns_decl");
+            w.raw("\n");
+            open_blocks = 1;
+        }
+        "dotted" => {
+            w.raw("NAMESPACE ");
+            w.id(&path[0], "ns_decl");
+            w.raw(".");
+            w.id(&path[1], "ns_decl");
+            w.raw("\n");
+            open_blocks = 1;
+        }
+        "dotted_nested" => {
+            w.raw("NAMESPACE ");
+            w.id(&path[0], "ns_decl");
+            w.raw(".");
+            w.id(&path[1], "ns_decl");
+            w.raw("\n");
+            open_blocks = 1;
+        }
+        _ => {}
+    }
+    let nested_from = match form { "nested2" | "nested3" => 0, "dotted_nested" => 2, _ => depth };
+    for (i, seg) in path.iter().enumerate().skip(nested_from) {
+        // a declaration of an outer level, used unqualified further inside
+        if with_mid && i == depth - 1 && open_blocks > 0 {
+            w.raw("TYPE ");
+            w.id(&mid, "mid_decl");
+            w.raw(" : DINT;\nEND_TYPE\n");
+        }
+        w.raw("NAMESPACE ");
+        w.id(seg, "ns_decl");
+        w.raw("\n");
+        open_blocks += 1;
+    }
+    let mid_declared = with_mid && w.toks.iter().any(|t| t.3 == "mid_decl");
+    // ---- declarations of the innermost namespace
+    w.raw("TYPE ");
+    w.id(&sample, "type_decl");
+    w.raw(" : STRUCT\n    ");
+    w.id(&fv, "field_decl");
+    w.raw(" : DINT;\n");
+    if mid_declared {
+        w.raw("    ");
+        w.id(&fm, "field_decl");
+        w.raw(" : ");
+        w.id(&mid, "mid_use");
+        w.raw(";\n");
+    }
+    w.raw("END_STRUCT\nEND_TYPE\n\nTYPE ");
+    w.id(&pack, "type_decl");
+    w.raw(" : STRUCT\n    ");
+    w.id(&ffirst, "field_decl");
+    if list_fields {
+        w.raw(", ");
+        w.id(&fsecond, "field_decl");
+        w.raw(" : ");
+        w.id(&sample, "type_use_nslevel");
+        w.raw(";\n");
+    } else {
+        w.raw(" : ");
+        w.id(&sample, "type_use_nslevel");
+        w.raw(";\n    ");
+        w.id(&fsecond, "field_decl");
+        w.raw(" : ");
+        w.id(&sample, "type_use_nslevel");
+        w.raw(";\n");
+    }
+    w.raw("END_STRUCT\nEND_TYPE\n\n");
+    if with_alias {
+        w.raw("TYPE ");
+        w.id(&alias, "type_decl");
+        w.raw(" : ");
+        w.id(&sample, "type_use_nslevel");
+        w.raw(";\nEND_TYPE\n\n");
+    }
+    w.raw("FUNCTION ");
+    w.id(&scale, "func_decl");
+    w.raw(" : DINT\nVAR_INPUT\n    ");
+    w.id(&pa, "local_decl");
+    w.raw(" : DINT;\nEND_VAR\nVAR\n    ");
+    w.id(&lt, "local_decl");
+    w.raw(" : ");
+    w.id(&sample, "type_use_pou_in_ns");
+    w.raw(";\nEND_VAR\n    ");
+    w.id(&lt, "local_use");
+    w.raw(".");
+    w.id(&fv, "field_use_in_ns");
+    w.raw(" := ");
+    w.id(&pa, "local_use");
+    w.raw(";\n    ");
+    w.id(&scale, "func_ret");
+    w.raw(" := ");
+    w.id(&lt, "local_use");
+    w.raw(".");
+    w.id(&fv, "field_use_in_ns");
+    w.raw(" + 1;\nEND_FUNCTION\n\nFUNCTION_BLOCK ");
+    w.id(&ctl, "fb_decl");
+    w.raw("\nVAR_OUTPUT\n    ");
+    w.id(&fo, "member_decl");
+    w.raw(" : DINT;\nEND_VAR\nVAR\n    ");
+    w.id(&fs, "member_decl");
+    w.raw(" : ");
+    w.id(&sample, "type_use_pou_in_ns");
+    w.raw(";\nEND_VAR\n    ");
+    w.id(&fs, "member_use");
+    w.raw(".");
+    w.id(&fv, "field_use_in_ns");
+    w.raw(" := ");
+    w.id(&fs, "member_use");
+    w.raw(".");
+    w.id(&fv, "field_use_in_ns");
+    w.raw(" + ");
+    w.id(&scale, "func_call_in_ns");
+    w.raw("(2);\n    ");
+    w.id(&fo, "member_use");
+    w.raw(" := ");
+    w.id(&fs, "member_use");
+    w.raw(".");
+    w.id(&fv, "field_use_in_ns");
+    w.raw(";\nEND_FUNCTION_BLOCK\n");
+    for _ in 0..open_blocks {
+        w.raw("END_NAMESPACE\n");
+    }
+    w.raw("\n");
+    // ---- the user program
+    if two_files {
+        w.file = 1;
+    }
+    let q = style == "qualified";
+    let using = |w: &mut NsW| {
+        w.raw("USING ");
+        for (i, seg) in path.iter().enumerate() {
+            if i > 0 {
+                w.raw(".");
+            }
+            w.id(seg, "ns_using");
+        }
+        w.raw(";\n");
+    };
+    if style == "using_file" {
+        using(&mut w);
+    }
+    w.raw("PROGRAM ");
+    w.id(&prog, "prog_decl");
+    w.raw("\n");
+    if style == "using_pou" {
+        w.raw("    ");
+        using(&mut w);
+    }
+    w.raw("VAR\n    ");
+    w.id(&vp, "local_decl");
+    w.raw(" : ");
+    w.quse(&path, q, &pack, "type_use_qual", "type_use_using");
+    w.raw(";\n    ");
+    w.id(&vs, "local_decl");
+    w.raw(" : ");
+    w.quse(&path, q, &sample, "type_use_qual", "type_use_using");
+    w.raw(";\n    ");
+    w.id(&vc, "local_decl");
+    w.raw(" : ");
+    w.quse(&path, q, &ctl, "fb_use_qual", "fb_use_using");
+    w.raw(";\n");
+    if with_alias {
+        w.raw("    ");
+        w.id(&va, "local_decl");
+        w.raw(" : ");
+        w.quse(&path, q, &alias, "type_use_qual", "type_use_using");
+        w.raw(";\n");
+    }
+    w.raw("    ");
+    w.id(&vn, "local_decl");
+    w.raw(" : DINT;\nEND_VAR\n    ");
+    w.id(&vs, "local_use");
+    w.raw(".");
+    w.id(&fv, "field_use_out");
+    w.raw(" := ");
+    w.id(&vn, "local_use");
+    w.raw(";\n    ");
+    w.id(&vp, "local_use");
+    w.raw(".");
+    w.id(&ffirst, "field_use_out");
+    w.raw(".");
+    w.id(&fv, "field_use_nested");
+    w.raw(" := ");
+    w.id(&vs, "local_use");
+    w.raw(".");
+    w.id(&fv, "field_use_out");
+    w.raw(";\n    ");
+    w.id(&vc, "local_use");
+    w.raw("();\n    ");
+    w.id(&vn, "local_use");
+    w.raw(" := (");
+    w.quse(&path, q, &scale, "func_call_qual", "func_call_using");
+    w.raw("(");
+    w.id(&vn, "local_use");
+    w.raw(") + ");
+    w.id(&vp, "local_use");
+    w.raw(".");
+    w.id(&fsecond, "field_use_out");
+    w.raw(".");
+    w.id(&fv, "field_use_nested");
+    w.raw(" + ");
+    w.id(&vc, "local_use");
+    w.raw(".");
+    w.id(&fo, "member_use_out");
+    w.raw(") MOD 997;\nEND_PROGRAM\n");
+    (w.texts, w.toks, form, style)
+}
+
+/// One namespace case: for every role one random identifier x a fresh name; the property's statement is
+/// evaluated on the implementation (`# nsorc` lines).  The model is not consulted (no `ren` lines).
+fn run_ns_project(n: u64, rng: &mut Rng, out: &mut Out, dump: bool) -> Result<(), String> {
+    let (texts, toks, form, style) = gen_ns_project(rng);
+    if dump {
+        for (i, t) in texts.iter().enumerate() {
+            println!("===== case {n} (namespace, {form}, {style}) file {i}\n{t}");
+        }
+    }
+    let db = make_db(&texts);
+    out.line(format!("case {n}"));
+    out.line(format!("# namespace-project form={form} style={style} files={}", texts.len()));
+    if let Some(e) = has_error(&db, texts.len()) {
+        out.count("ns_skipped_project_with_error_diagnostic");
+        out.line(format!("# nsskip {}", e.replace('\n', " ")));
+        out.line("end");
+        return Ok(());
+    }
+    let idents: Vec<BTreeSet<(usize, usize)>> = texts.iter().map(|t| ident_tokens(t)).collect();
+    for (f, set) in idents.iter().enumerate() {
+        let mine: BTreeSet<(usize, usize)> = toks.iter().filter(|t| t.0 == f).map(|t| (t.1, t.1 + t.2.len())).collect();
+        if *set != mine {
+            return Err(format!("namespace case: role table differs from the lexer's identifier tokens in file {f}"));
+        }
+    }
+    let mut cx = Ctx { compare_behaviour: true, texts: texts.clone(), db, idents, trace: vec![vec![], vec![], vec![]], base_run: None };
+    // the runtime's compiler does not resolve namespace-level sibling types ("unknown type"), so namespace
+    // projects are judged on the analysis only: when the base project does not compile, the run-time
+    // clauses are not evaluated (base_run = Err makes `oracle` skip them)
+    cx.base_run = Some(run_trace_forked(&cx.texts, &cx.trace));
+    if let Some(Err(_)) = &cx.base_run {
+        out.count("ns_project_not_compiled_by_runtime");
+    }
+    let mut by_role: BTreeMap<&'static str, Vec<usize>> = BTreeMap::new();
+    for (i, t) in toks.iter().enumerate() {
+        by_role.entry(t.3).or_default().push(i);
+    }
+    let mut k = 0;
+    for (role, list) in by_role.iter() {
+        let (f, start, name, _) = toks[*rng.pick(list)].clone();
+        k += 1;
+        let new_name = format!("zq{k}N");
+        let off = start + rng.below(name.len() as u64) as usize;
+        let verdict = match call_rename(&cx.db, f, off, &new_name) {
+            Err(()) => "panic".to_string(),
+            Ok(None) => "refused".to_string(),
+            Ok(Some(edits)) => {
+                let me = edits.iter().any(|(ef, es, _, _)| *ef == f && *es == start);
+                format!("accepted edits={} self={} {}", edits.len(), me as u8, oracle(&mut cx, Some((f, start, name.clone())), &edits, &new_name))
+            }
+        };
+        out.count(&format!("ns_{}", verdict.split(' ').next().unwrap_or("?")));
+        out.line(format!("# nsorc role={role} style={style} form={form} at={f}:{off} new={new_name} {}", verdict.replace('\n', " ")));
+    }
+    out.count("ns_cases");
+    out.line("end");
+    Ok(())
+}
+
 // ------------------------------------------------------------------------------------------------
 // fixed witnesses of the recorded findings (replayed on the real code in every run)
 // ------------------------------------------------------------------------------------------------
@@ -1808,6 +2178,8 @@ const W_FIELD: &str = "PROGRAM Run\nVAR\n    hh : Pump;\n    r : DINT;\nEND_VAR\
 
 const W_SKIPPED: &str = "PROGRAM Main\nVAR\n    s : Rec;\nEND_VAR\n    s.a := 1;\n    s.b := 2;\nEND_PROGRAM\n=====\nTYPE Rec : STRUCT\n    a : DINT;\n    b : DINT;\nEND_STRUCT\nEND_TYPE\n";
 
+const W_NS: &str = "NAMESPACE Outer\nNAMESPACE Inner\nTYPE Sample : STRUCT\n    v : DINT;\nEND_STRUCT\nEND_TYPE\n\nFUNCTION Scale : DINT\nVAR_INPUT\n    a : DINT;\nEND_VAR\nVAR\n    t : Sample;\nEND_VAR\n    t.v := a;\n    Scale := t.v + 1;\nEND_FUNCTION\nEND_NAMESPACE\nEND_NAMESPACE\n\nPROGRAM Main\nVAR\n    s : Outer.Inner.Sample;\n    n : DINT;\nEND_VAR\n    s.v := n;\n    n := Outer.Inner.Scale(n);\nEND_PROGRAM\n";
+
 /// (finding class, project text, text that locates the cursor, occurrence index of that text, new name)
 const WITNESSES: &[(&str, &str, &str, usize, &str)] = &[
     ("capture", W_GLOBAL_LOCAL, "g : DINT", 0, "x"),
@@ -1820,6 +2192,9 @@ const WITNESSES: &[(&str, &str, &str, usize, &str)] = &[
     ("inst-clash", W_INST, "dd : DINT", 0, "k"),
     ("field-typeid", W_FIELD, "gg : DINT;", 0, "zz"),
     ("conflict-skipped", W_SKIPPED, "a := 1", 0, "b"),
+    ("ns-field", W_NS, "v := a", 0, "zq"),
+    ("ns-func-qualified", W_NS, "Scale : DINT", 0, "zq"),
+    ("ns-namespace-rename", W_NS, "Outer\nNAMESPACE", 0, "zq"),
 ];
 
 fn run_witnesses(out: &mut Out) {
@@ -1874,6 +2249,29 @@ pub fn run(args: &Args) -> i32 {
         println!("{:#?}", parsed.syntax());
         return 0;
     }
+    if let Some(p) = args.extra.get("sweep") {
+        // developer tool: every identifier token of a project x one fresh name, oracle verdict per request
+        let text = std::fs::read_to_string(p).expect("read");
+        let texts: Vec<String> = text.split("=====\n").map(|s| s.to_string()).collect();
+        let db = make_db(&texts);
+        println!("errors: {:?}", has_error(&db, texts.len()));
+        let idents: Vec<BTreeSet<(usize, usize)>> = texts.iter().map(|t| ident_tokens(t)).collect();
+        let mut cx = Ctx { compare_behaviour: true, texts: texts.clone(), db, idents: idents.clone(), trace: vec![vec![0], vec![3]], base_run: None };
+        for (f, set) in idents.iter().enumerate() {
+            for (s0, e0) in set {
+                let v = match call_rename(&cx.db, f, *s0, "zq9") {
+                    Ok(Some(edits)) => {
+                        let me = edits.iter().any(|(ef, es, _, _)| *ef == f && es == s0);
+                        format!("{} edits self={} {}", edits.len(), me as u8, oracle(&mut cx, Some((f, *s0, texts[f][*s0..*e0].to_string())), &edits, "zq9"))
+                    }
+                    Ok(None) => "refused".into(),
+                    Err(()) => "panic".into(),
+                };
+                println!("f{f} {s0:4} {:12} {}", &texts[f][*s0..*e0], v.chars().take(230).collect::<String>());
+            }
+        }
+        return 0;
+    }
     if let Some(p) = args.extra.get("probe") {
         return probe(p, args.extra.get("name").map(|s| s.as_str()).unwrap_or("zz"));
     }
@@ -1886,6 +2284,15 @@ pub fn run(args: &Args) -> i32 {
     }
     for n in args.case_numbers() {
         let mut rng = Rng::for_case(args.seed, n);
+        // every 8th case is a namespace project (oracle only)
+        if n % 8 == 7 {
+            if let Err(e) = run_ns_project(n, &mut rng, &mut out, args.extra.contains_key("dump")) {
+                eprintln!("case {n}: {e}");
+                return 3;
+            }
+            out.count("cases");
+            continue;
+        }
         let p = gen_project(&mut rng);
         if args.extra.contains_key("dump") {
             let rd = render(&p);
